@@ -91,6 +91,11 @@ def compute_embeddingbag_gradsampler(layer, inputs, backprops):
             gsm[i].index_add_(
                 0, bag, (backprops[i] / bag.shape[0]).expand(bag.shape[0], -1)
             )
+        elif layer.mode == "max":
+            # each output feature receives the gradient through the row attaining the maximum
+            rows = bag[layer.weight[bag].argmax(dim=0)]
+            cols = torch.arange(layer.embedding_dim, device=rows.device)
+            gsm[i].index_put_((rows, cols), backprops[i], accumulate=True)
 
     ret = {}
     ret[layer.weight] = gsm
